@@ -232,8 +232,80 @@ func c08R2(c *Ctx) {
 				}
 			}
 		}
-		c.Check(inb, "C08.R2", FuncName(rc)+"#push-in-bounds", P.InstrPos(cs), "pushed only when frameInBounds", "a frame is pushed onto the reorder heap without the receive-window bounds test (a frame far outside the window could be delivered later as if in order)")
+		// decided on paths (the helper, whatever its name, is inlined) from the order atoms
+		_ = inb
+		inb = c08PushInBounds(c, rc, cs, fWS, fPrio)
+		c.Check(inb, "C08.R2", FuncName(rc)+"#push-in-bounds", P.InstrPos(cs), "pushed only when the frame number lies in the receive window", "a frame is pushed onto the reorder heap without the receive-window bounds test (a frame far outside the window could be delivered later as if in order)")
 	}
+}
+
+// c08PushInBounds: on every path to the push, with F the priority pushed, W the window start and
+// E = W + const the window end: if W < E then neither E < F nor F < W; otherwise not both.
+func c08PushInBounds(c *Ctx, rc *ssa.Function, push ssa.Instruction, fWS, fPrio *types.Var) bool {
+	okAll, seen := true, false
+	walkOK := walkAllOpts(c, "C08.R2", rc, PathOpts{MaxVisits: 2}, func(p *Path) {
+		at := -1
+		var F ssa.Value
+		p.ForEach(func(i int, ins ssa.Instruction) bool {
+			if st, ok := ins.(*ssa.Store); ok && lastField(st.Addr) == fPrio && at < 0 {
+				F = p.Resolve(st.Val, i)
+			}
+			if ins == push {
+				at = i
+				return false
+			}
+			return true
+		})
+		if at < 0 {
+			return
+		}
+		seen = true
+		if F == nil {
+			okAll = false
+			return
+		}
+		role := func(v ssa.Value) byte {
+			v = p.Resolve(v, at)
+			switch {
+			case v == F:
+				return 'F'
+			case lastField(v) == fWS:
+				return 'W'
+			}
+			if b, ok := v.(*ssa.BinOp); ok && b.Op == token.ADD {
+				if _, isC := constInt(b.Y); isC && lastField(p.Resolve(b.X, at)) == fWS {
+					return 'E'
+				}
+			}
+			return 0
+		}
+		known := map[string]bool{}
+		val := map[string]bool{}
+		for k, v := range p.FactsAt(at) {
+			if k.op != token.LSS {
+				continue
+			}
+			a, b := role(k.x), role(k.y)
+			if a == 0 || b == 0 {
+				continue
+			}
+			key := string([]byte{a, '<', b})
+			known[key], val[key] = true, v
+		}
+		switch {
+		case known["W<E"] && val["W<E"]:
+			if !(known["E<F"] && !val["E<F"] && known["F<W"] && !val["F<W"]) {
+				okAll = false
+			}
+		case known["W<E"] && !val["W<E"]:
+			if !((known["E<F"] && !val["E<F"]) || (known["F<W"] && !val["F<W"])) {
+				okAll = false
+			}
+		default:
+			okAll = false
+		}
+	})
+	return walkOK && seen && okAll
 }
 
 func c08R3(c *Ctx) {
